@@ -75,7 +75,7 @@ func checkC14(c *Ctx, r *Report) {
 	}
 	isTarget := func(f *ssa.Function) func(ssa.Value) bool {
 		return func(v ssa.Value) bool {
-			if pr, ok := v.(*ssa.Parameter); ok && pr.Name() == "target" {
+			if pr, ok := v.(*ssa.Parameter); ok && paramIs(pr, "target") {
 				return true
 			}
 			p, ok := v.(*ssa.Phi)
@@ -86,7 +86,7 @@ func checkC14(c *Ctx, r *Report) {
 				if b, ok := l.(*ssa.BinOp); ok && b.Op == token.SUB && isNCand(b.X) && lowWater(b.Y) {
 					return true
 				}
-				if pr, ok := l.(*ssa.Parameter); ok && pr.Name() == "target" {
+				if pr, ok := l.(*ssa.Parameter); ok && paramIs(pr, "target") {
 					return true
 				}
 			}
@@ -127,7 +127,7 @@ func checkC14(c *Ctx, r *Report) {
 					return false
 				}
 				lk, ok := e.Tuple.(*ssa.Lookup)
-				if !ok || !isLoadOfField(cmP + ".BasicConnMgr.protected")(lk.X) {
+				if !ok || !isLoadOfField(cmP+".BasicConnMgr.protected")(lk.X) {
 					return false
 				}
 				k, ok := lk.Index.(*ssa.Extract)
@@ -163,7 +163,7 @@ func checkC14(c *Ctx, r *Report) {
 					return false
 				}
 				neg, ok := a[1].(*ssa.UnOp)
-				return ok && neg.Op == token.SUB && isLoadOfField(cmP + ".config.gracePeriod")(neg.X)
+				return ok && neg.Op == token.SUB && isLoadOfField(cmP+".config.gracePeriod")(neg.X)
 			}
 			r1.guard(f, "append(candidates, inf)", []ssa.Instruction{cd.in}, "!inf.firstSeen.After(now - gracePeriod)", edgeExcl(firstSeen, graceStart, ordGT), nil)
 		}
@@ -252,7 +252,9 @@ func checkC14(c *Ctx, r *Report) {
 	r2 := r.Rule("C14-R2", "E3/E6", 4, "inside connmgr a connection is closed only when it comes out of a selector; the emergency selector is called only by ForceTrim")
 	closeOf := func(sel string) func(f *ssa.Function) {
 		return func(f *ssa.Function) {
-			for _, in := range findInstrs(f, func(in ssa.Instruction) bool { return isCallTo(in, "(core/network.*).Close", "(core/network.*).CloseWithError") }) {
+			for _, in := range findInstrs(f, func(in ssa.Instruction) bool {
+				return isCallTo(in, "(core/network.*).Close", "(core/network.*).CloseWithError")
+			}) {
 				recv := callArgs(in.(ssa.CallInstruction))[0]
 				ok := derivesFrom(recv, isCallResult(0, sel))
 				r2.Check(ok, fnKey(f)+": closed connection is an element of "+sel+"()", instrPos(in), 1, "", "a connection that the selector did not choose is closed", describeVal(recv))
@@ -315,7 +317,7 @@ func checkC14(c *Ctx, r *Report) {
 				return false
 			}
 			lk, ok := e.Tuple.(*ssa.Lookup)
-			return ok && isLoadOfField(piT + ".conns")(lk.X) && isParamVar(c, lk.Index, "c")
+			return ok && isLoadOfField(piT+".conns")(lk.X) && isParamVar(c, lk.Index, "c")
 		}
 	}
 	if f := r3.need(nn("Connected")); f != nil {
